@@ -1,3 +1,4 @@
+import numbers
 import networkx as nx
 import flowpaths.stdigraph as stdigraph
 import flowpaths.abstractwalkmodeldigraph as walkmodel
@@ -80,6 +81,10 @@ class kPathCoverCycles(walkmodel.AbstractWalkModelDiGraph):
         """
     
         # Handling node-weighted graphs
+        # k is validated first: before it is used in arithmetic, and independently of solution_weights_superset
+        if isinstance(k, bool) or not isinstance(k, numbers.Integral) or k <= 0:
+            utils.logger.error(f"{__name__}: k must be a positive integer, not {k}")
+            raise ValueError(f"k must be a positive integer, not {k}")
         self.cover_type = cover_type
         if self.cover_type == "node":
             if G.number_of_nodes() == 0:
